@@ -89,8 +89,15 @@ def _r1(run, prog, eff, classes):
                 if not hit:
                     continue
                 run.subject('C18-R1')
-                if '' in full.notifies:
+                from ..flow import refreshed_after_write
+                okord, why = refreshed_after_write(fn, set(hit), lambda c: isinstance(c.func, ast.Attribute) and c.func.attr == 'notify'
+                                                   and norm(c.func.value) in ('self.notifier', 'self._notifier')) if '' in eff.summary(fn).notifies else (True, '')
+                if '' in full.notifies and okord:
                     run.ok('C18-R1', '%s.%s -> notify (geometry)' % (cname, name), 'writes %s' % hit)
+                elif '' in full.notifies:
+                    run.fail('C18-R1', '%s|%s|setter:%s|geometry-notify-order' % (dc.mod.name, cname, name), dc.mod.relpath, fn.lineno,
+                             '%s.%s writes %s, which sizes the laser segments, but %s: a laser attached to the profile builds its segments from '
+                             'the previous value' % (cname, name, hit, why))
                 else:
                     run.fail('C18-R1', '%s|%s|setter:%s|geometry-no-notify' % (dc.mod.name, cname, name), dc.mod.relpath, fn.lineno,
                              '%s.%s writes %s, which sizes the laser segments, but does not notify the laser node' % (cname, name, hit))
